@@ -3,16 +3,24 @@
 Workload: generated executable, side-effect-free packages: functions of every signature shape,
 classes with static/class/instance methods, properties, nested classes, inheritance (in-module
 and across modules), module/class attributes bound to literals, docstrings, intra-package
-imports of classes, functions, modules and plain values.
+imports of classes, functions, modules and plain values; annotations of every spelling on parameters, returns and
+attributes (objects, whole or partial strings, ``from __future__ import annotations``) that name builtins, earlier and later
+module-level classes, classes nested in the enclosing class, names imported under ``if TYPE_CHECKING:`` only, type
+parameters (PEP 695), undefined names, or are no expression at all; non-literal defaults; functools.wraps / identity
+decorators, cached properties; imports from the standard library (Python and C implemented, classes, functions, modules,
+plain values).
 Oracle: each package (unique name) is loaded statically and with ``force_inspection=True`` in
 this child; normalised skeletons are compared, allowed differences are removed *by rule*
 (dunder names the source does not assign, instance attributes, attribute docstrings, line
 numbers, label vocabulary, origin of imported plain values).  Third leg: ``inspect.signature``
-of the really imported objects.
+of the really imported objects.  Imports from outside the package are arbitrated by CPython (both target paths
+must reach the same object; only plain values may lose their origin); names bound under ``if TYPE_CHECKING:`` only are a
+static-only difference removed by a syntactic rule.
 """
 from __future__ import annotations
 
 import ast
+import functools
 import importlib
 import inspect
 import random
@@ -25,7 +33,9 @@ PROP = "C17"
 LEVEL = "exploration"
 ANCHORS = ["agents/inspector.py", "agents/nodes/runtime.py", "importer.py"]
 RULE = ("generated importable packages (init + 2-3 modules): functions over random parameter lists (all five kinds, defaults, "
-        "annotations), classes with instance/static/class methods, properties, nested classes, single and cross-module "
+        "annotations as objects / strings / under the annotations future import, resolvable at module level or not: nested "
+        "classes, TYPE_CHECKING-only imports, type parameters, undefined names, non-expressions; return annotations; wraps and "
+        "identity decorators; standard-library imports), classes with instance/static/class methods, properties, nested classes, single and cross-module "
         "inheritance, literal module/class attributes, __init__ with instance attributes, docstrings, imports of classes/"
         "functions/modules/plain values between the modules. distinct = digest of files; non-trivial = package with "
         "inheritance, a property and an intra-package import")
@@ -33,18 +43,84 @@ LEVEL_TEXT = ("Every generated package is analysed by both agents in one interpr
               "parallel: member names and kinds at every level, parameters (names, kinds, required-ness) also against "
               "inspect.signature of the imported objects, base classes, docstrings of modules/classes/functions and the "
               "final targets of aliases must agree; only the differences the statement allows are filtered, by rule.")
-LEVEL_NOTE = ("trusted: CPython import + inspect.signature; attributes are bound to plain literals only (alias = func / "
+LEVEL_NOTE = ("trusted: CPython import + inspect.signature; names bound only under `if TYPE_CHECKING:` are excluded from the "
+              "member comparison (static-only by construction); attributes are bound to plain literals only (alias = func / "
               "lambda bindings are attributes for one agent and functions for the other: not generated)")
 TECHNIQUE = "runtime monitoring: differential oracle (visitor vs inspector vs inspect.signature) over generated importable packages"
 REQUIRED_COUNTERS = ["packages_compared", "members_compared", "functions_compared", "signatures_vs_cpython", "classes_compared",
-                     "docstrings_compared", "aliases_compared"]
+                     "docstrings_compared", "aliases_compared", "functions_compared_annotated", "functions_compared_str_annotation",
+                     "functions_compared_str_annotation_unevaluable", "functions_compared_return_annotation",
+                     "functions_compared_wrapped", "external_imports_compared"]
 EXHAUSTIVE = {"quick": False, "thorough": False}
 ASSUMPTIONS = ["generated code has no import-time side effects; packages get unique names and are purged from sys.modules"]
 KIND_TXT = {c02.PO: "positional-only", c02.PK: "positional or keyword", c02.VP: "variadic positional", c02.KO: "keyword-only",
             c02.VK: "variadic keyword"}
 
 
-def rand_params(rng: random.Random, first: str | None = None) -> str:
+BUILTIN_TYPES = ["int", "str", "float", "bytes", "bool"]
+# Imports from the standard library: (statement, names usable as annotations once it ran). Whether such a name is a class,
+# a function, a module or a plain value is never looked up here: the oracle asks CPython (see compare_external).
+EXTERNALS = [
+    ("import typing", ["typing.Any", "typing.Optional[int]"]),
+    ("import os", []),
+    ("import collections.abc", ["collections.abc.Sequence"]),
+    ("import os.path as osp", []),
+    ("from typing import Any", ["Any"]),
+    ("from typing import Optional as Opt", ["Opt[int]"]),
+    ("from collections import OrderedDict", ["OrderedDict"]),
+    ("from os.path import join", []),
+    ("from functools import partial", ["partial"]),
+    ("from enum import Enum", ["Enum"]),
+    ("from abc import abstractmethod as abstract", []),
+    ("from sys import maxsize", []),
+    # implemented in C: built-in functions and classes, modules that name themselves differently (posix, _io)
+    ("from math import sqrt", []),
+    ("from io import StringIO", ["StringIO"]),
+    ("from os import getcwd", []),
+    ("from itertools import chain", ["chain"]),
+    ("from time import sleep as pause", []),
+    ("from typing import final", []),
+]
+# decorators of the standard library that hand the decorated function back: they change nothing of the skeleton
+IDENTITY_DECORATORS = {"from abc import abstractmethod as abstract": "abstract", "from typing import final": "final"}
+GUARDED_EXTERNALS = [("decimal", "Decimal"), ("fractions", "Fraction"), ("pathlib", "Path")]
+PEP695 = sys.version_info >= (3, 12)
+
+
+class Scope:
+    """What an annotation / a default written at some place of a generated module may name.
+
+    evaluable: expressions CPython can evaluate when the ``def`` statement runs (safe without quotes);
+    deferred:  names that are legal only inside a string annotation or under ``from __future__ import annotations``:
+               defined later in the module, nested in the enclosing class, imported under ``if TYPE_CHECKING:``,
+               type parameters, or defined nowhere at all;
+    defaults:  expressions usable as a default value at this place.
+    """
+
+    def __init__(self, future: bool, evaluable: list[str], deferred: list[str], defaults: list[str]) -> None:
+        self.future, self.evaluable, self.deferred, self.defaults = future, list(evaluable), list(deferred), list(defaults)
+
+    def child(self, evaluable: tuple | list = (), deferred: tuple | list = ()) -> Scope:
+        return Scope(self.future, [*self.evaluable, *evaluable], [*self.deferred, *deferred], self.defaults)
+
+
+def gen_ann(rng: random.Random, sc: Scope) -> str:
+    """An annotation that leaves the module importable: any object, any string is legal for CPython."""
+    if rng.random() < 0.05:
+        return rng.choice(['"free text"', '"a b"', "None", "1", '"in:valid["', '""', "(int, str)"])
+    use_def = bool(sc.deferred) and rng.random() < 0.5
+    atom = rng.choice(sc.deferred if use_def else sc.evaluable)
+    shape = rng.choice(["{}", "{}", "{}", "{} | None", "list[{}]", "dict[str, {}]", "tuple[{}, ...]"])
+    if use_def and not sc.future:
+        if "[" in shape and rng.random() < 0.4:
+            return shape.format('"' + atom + '"')  # partially quoted: list["X"]
+        return '"' + shape.format(atom) + '"'
+    txt = shape.format(atom)
+    return '"' + txt + '"' if rng.random() < 0.25 else txt
+
+
+def rand_params(rng: random.Random, sc: Scope, first: str | None = None) -> str:
+    """Parameter list and return annotation: ``(p0, /, *p1: "X", p2=0) -> T`` without the ``def name`` part."""
     n = rng.randint(0, 4)
     for _ in range(100):
         kinds = tuple(sorted(rng.choice([c02.PO, c02.PK, c02.PK, c02.KO, c02.VP, c02.VK]) for _ in range(n)))
@@ -63,55 +139,170 @@ def rand_params(rng: random.Random, first: str | None = None) -> str:
             dfl.append(rng.randint(0, 1))
         else:
             dfl.append(0)
+    annotated = rng.random() < 0.5  # annotated functions tend to annotate several parameters
     parts = []
     for i, k in enumerate(kinds):
         name = f"p{i}"
         if k == c02.KO and c02.VP not in kinds and (i == 0 or kinds[i - 1] != c02.KO):
             parts.append("*")
         txt = {c02.VP: "*" + name, c02.VK: "**" + name}.get(k, name)
-        if rng.random() < 0.3:
-            txt += ": " + rng.choice(["int", "str", "float"])
+        if annotated and rng.random() < 0.6:
+            txt += ": " + gen_ann(rng, sc)
             if dfl[i]:
-                txt += " = " + rng.choice(["0", "'s'", "None", "1.5"])
+                txt += " = " + rng.choice(["0", "'s'", "None", "1.5", *sc.defaults])
         elif dfl[i]:
-            txt += "=" + rng.choice(["0", "'s'", "None", "(1, 2)"])
+            txt += "=" + rng.choice(["0", "'s'", "None", "(1, 2)", *sc.defaults])
         parts.append(txt)
         if k == c02.PO and (i + 1 == len(kinds) or kinds[i + 1] != c02.PO):
             parts.append("/")
     if first:
-        if kinds and kinds[0] == c02.PO:
-            return first + ", " + ", ".join(parts)
-        parts.insert(0, first)
-    return ", ".join(parts)
+        if annotated and rng.random() < 0.1:
+            first += ": " + gen_ann(rng, sc)
+        parts.insert(0, first)  # before a leading positional-only group `self` is positional-only too
+    ret = " -> " + gen_ann(rng, sc) if (annotated and rng.random() < 0.6) or rng.random() < 0.05 else ""
+    return "(" + ", ".join(parts) + ")" + ret
 
 
-def gen_class(rng: random.Random, name: str, bases: list[str], indent: str = "", depth: int = 0) -> str:
+def gen_def(rng: random.Random, sc: Scope, ind: str, name: str, first: str | None, doc: str, deco: list[str] | None,
+            pre: tuple = (), allow_async: float = 0.2) -> str:
+    """One function definition: optional decorators, async, PEP 695 type parameter, annotations, docstring."""
+    kw = "async def" if rng.random() < allow_async else "def"
+    tp = ""
+    if PEP695 and rng.random() < 0.08:
+        tp = "[T]"
+        sc = sc.child(evaluable=["T", "T"], deferred=["T"])
+    src = "".join(f"{ind}@{d}\n" for d in pre)
+    for d in deco or ():
+        # functools.wraps decorators (the signature CPython reports is the decorated function's) and identity decorators
+        if rng.random() < 0.15:
+            src += f"{ind}@{d}\n"
+    src += f"{ind}{kw} {name}{tp}{rand_params(rng, sc, first)}:"
+    if doc:
+        src += f'\n{ind}    """{doc}"""'
+    return src + f"\n{ind}    return 1\n"
+
+
+def gen_class(rng: random.Random, sc: Scope, name: str, bases: list[str], deco: list[str] | None, indent: str = "", depth: int = 0,
+              outer: tuple = ()) -> str:
     ind = indent + "    "
     src = f"{indent}class {name}" + (f"({', '.join(bases)})" if bases else "") + ":\n"
     if rng.random() < 0.6:
         src += f'{ind}"""Class {name}."""\n'
-    n = 0
+    # names of classes that are no module-level globals (this class when nested, its own nested class): a string
+    # annotation naming them is a forward reference only a type checker can follow
+    inner = name + "Inner" if depth == 0 and rng.random() < 0.4 else None
+    inner_first = inner is not None and rng.random() < 0.5
+    msc = sc.child(deferred=[name, *outer])
+    if inner:
+        msc = msc.child(evaluable=[inner, inner] if inner_first else (), deferred=[inner, inner, f"{name}.{inner}"])
+    if inner and inner_first:
+        src += gen_class(rng, sc, inner, [], deco, ind, depth + 1, outer=(name,))
     for i in range(rng.randint(1, 4)):
         r = rng.random()
         mname = f"{name.lower()}_m{i}"
-        doc = f'\n{ind}    """Doc of {mname}."""' if rng.random() < 0.5 else ""
-        kw = "async def" if rng.random() < 0.2 else "def"  # coroutine variants of every method flavour
+        doc = f"Doc of {mname}." if rng.random() < 0.5 else ""
         if r < 0.35:
-            src += f"{ind}{kw} {mname}({rand_params(rng, 'self')}):{doc}\n{ind}    return 1\n"
+            src += gen_def(rng, msc, ind, mname, "self", doc, deco)
         elif r < 0.5:
-            src += f"{ind}@staticmethod\n{ind}{kw} {mname}({rand_params(rng)}):{doc}\n{ind}    return 1\n"
+            src += gen_def(rng, msc, ind, mname, None, doc, deco, pre=("staticmethod",))
         elif r < 0.65:
-            src += f"{ind}@classmethod\n{ind}{kw} {mname}({rand_params(rng, 'cls')}):{doc}\n{ind}    return 1\n"
+            src += gen_def(rng, msc, ind, mname, "cls", doc, deco, pre=("classmethod",))
         elif r < 0.8:
-            src += f"{ind}@property\n{ind}def {mname}(self):{doc}\n{ind}    return 1\n"
+            ret = " -> " + gen_ann(rng, msc) if rng.random() < 0.3 else ""
+            # functools is imported by the modules that define a wraps decorator
+            prop = "functools.cached_property" if any(d.endswith("_deco") for d in deco or ()) and rng.random() < 0.3 else "property"
+            src += f"{ind}@{prop}\n{ind}def {mname}(self){ret}:" + (f'\n{ind}    """{doc}"""' if doc else "") + f"\n{ind}    return 1\n"
         else:
-            src += f"{ind}{mname} = {rng.choice(['1', repr('v'), '(1, 2)', 'None', '2.5'])}\n"
-        n += 1
+            ann = ": " + gen_ann(rng, msc) if rng.random() < 0.25 else ""
+            src += f"{ind}{mname}{ann} = {rng.choice(['1', repr('v'), '(1, 2)', 'None', '2.5'])}\n"
     if rng.random() < 0.4:
         src += f"{ind}def __init__(self, a=0):\n{ind}    self.inst_{name.lower()} = a\n"
-    if depth == 0 and rng.random() < 0.35:
-        src += gen_class(rng, name + "Inner", [], ind, depth + 1)
+    if inner and not inner_first:
+        src += gen_class(rng, sc, inner, [], deco, ind, depth + 1, outer=(name,))
     return src
+
+
+def gen_module(rng: random.Random, name: str, m: str, prevs: list[str], exported: dict) -> tuple[str, list[tuple[str, str]]]:  # noqa: C901, PLR0912, PLR0915
+    src = f'"""Module {m}."""\n' if rng.random() < 0.7 else ""
+    future = rng.random() < 0.3
+    if future:
+        src += "from __future__ import annotations\n"
+    defs: list[tuple[str, str]] = []
+    evaluable, deferred, defaults = list(BUILTIN_TYPES), [f"Missing{m.upper()}"], ["len"]
+    # imports from the standard library
+    stmts = rng.sample(EXTERNALS, rng.choice([0, 0, 1, 2, 3]))
+    tc_mode = rng.choice([None, None, "from", "attr", "local"])
+    use_wraps = rng.random() < 0.4
+    lines = [s for s, _ in stmts]
+    if tc_mode == "from":
+        lines.append("from typing import TYPE_CHECKING")
+    if tc_mode == "attr" and "import typing" not in lines:
+        lines.append("import typing")
+        stmts.append(EXTERNALS[0])
+    if use_wraps:
+        lines.append("import functools")
+    rng.shuffle(lines)
+    src += "".join(ln + "\n" for ln in lines)
+    for _, anns in stmts:
+        evaluable += anns
+    # imports from earlier modules
+    for prev in prevs:
+        for nm, kind in rng.sample(exported[prev], min(len(exported[prev]), rng.randint(0, 3))):
+            form = rng.random()
+            if form < 0.5:
+                src += f"from {name}.{prev} import {nm}\n"
+                defs.append((nm, "imported-" + kind))
+            elif form < 0.75:
+                src += f"from .{prev} import {nm} as {nm}_x\n"
+                defs.append((nm + "_x", "imported-" + kind))
+        if rng.random() < 0.3:
+            src += f"from {name} import {prev} as mod_{prev}\n"
+            defs.append((f"mod_{prev}", "imported-module"))
+            evaluable += [f"mod_{prev}.{nm}" for nm, kind in exported[prev] if kind == "class"][:1]
+    evaluable += [d for d, k in defs if k == "imported-class"]
+    # imports for type checkers only: the names do not exist when the module runs
+    if tc_mode:
+        if tc_mode == "local":
+            src += "TYPE_CHECKING = False\n"
+        src += "if typing.TYPE_CHECKING:\n" if tc_mode == "attr" else "if TYPE_CHECKING:\n"
+        cands = [(f"{name}.{p}", nm) for p in prevs for nm, kind in exported[p] if kind == "class"]
+        for mod, nm in rng.sample(cands, min(len(cands), rng.randint(0, 2))) or [rng.choice(GUARDED_EXTERNALS)]:
+            src += f"    from {mod} import {nm} as {nm}_t\n"
+            deferred += [f"{nm}_t"] * 2
+    deco = [d for st, d in IDENTITY_DECORATORS.items() if st in lines]
+    if use_wraps:
+        deco.append(f"{m}_deco")
+        src += (f"def {m}_deco(fn):\n    @functools.wraps(fn)\n    def wrapper(*args, **kwargs):\n        return fn(*args, **kwargs)\n"
+                "    return wrapper\n")
+        defs.append((f"{m}_deco", "function"))
+    plan = []
+    for i in range(rng.randint(2, 5)):
+        r = rng.random()
+        plan.append((f"{m}_o{i}", "function" if r < 0.4 else "class" if r < 0.75 else "value"))
+    later = [nm.capitalize() for nm, kind in plan if kind == "class"]
+    for nm, kind in plan:
+        sc = Scope(future, evaluable, deferred + later, defaults)
+        if kind == "function":
+            doc = f"Function {nm}." if rng.random() < 0.5 else ""
+            src += gen_def(rng, sc, "", nm, None, doc, deco, allow_async=0.15)
+            defs.append((nm, "function"))
+        elif kind == "class":
+            cname = nm.capitalize()
+            bases = []
+            classes_here = [d for d, k in defs if k in ("class", "imported-class")]
+            if classes_here and rng.random() < 0.6:
+                bases = [rng.choice(classes_here)]
+            later.remove(cname)
+            src += gen_class(rng, Scope(future, evaluable, deferred + later, defaults), cname, bases, deco)
+            defs.append((cname, "class"))
+            evaluable.append(cname)
+            defaults.append(cname)
+        else:
+            ann = ": " + gen_ann(rng, sc) if rng.random() < 0.2 else ""
+            src += f"{nm}{ann} = {rng.choice(['1', repr('text'), '[1, 2]', 'None', '3.5', '{1: 2}'])}\n"
+            defs.append((nm, "value"))
+            defaults.append(nm)
+    return src, defs
 
 
 def gen_package(rng: random.Random, name: str) -> dict[str, str]:
@@ -119,41 +310,7 @@ def gen_package(rng: random.Random, name: str) -> dict[str, str]:
     mods = ["a", "b"] + (["c"] if rng.random() < 0.4 else [])
     exported: dict[str, list[tuple[str, str]]] = {}
     for mi, m in enumerate(mods):
-        src = f'"""Module {m}."""\n' if rng.random() < 0.7 else ""
-        defs: list[tuple[str, str]] = []
-        # imports from earlier modules
-        for prev in mods[:mi]:
-            for nm, kind in rng.sample(exported[prev], min(len(exported[prev]), rng.randint(0, 3))):
-                form = rng.random()
-                if form < 0.5:
-                    src += f"from {name}.{prev} import {nm}\n"
-                    defs.append((nm, "imported-" + kind))
-                elif form < 0.75:
-                    src += f"from .{prev} import {nm} as {nm}_x\n"
-                    defs.append((nm + "_x", "imported-" + kind))
-            if rng.random() < 0.3:
-                src += f"from {name} import {prev} as mod_{prev}\n"
-                defs.append((f"mod_{prev}", "imported-module"))
-        for i in range(rng.randint(2, 5)):
-            r = rng.random()
-            nm = f"{m}_o{i}"
-            if r < 0.4:
-                doc = f'\n    """Function {nm}."""' if rng.random() < 0.5 else ""
-                pre = "async " if rng.random() < 0.15 else ""
-                src += f"{pre}def {nm}({rand_params(rng)}):{doc}\n    return 1\n"
-                defs.append((nm, "function"))
-            elif r < 0.75:
-                cname = nm.capitalize()
-                bases = []
-                classes_here = [d for d, k in defs if k in ("class", "imported-class")]
-                if classes_here and rng.random() < 0.6:
-                    bases = [rng.choice(classes_here)]
-                src += gen_class(rng, cname, bases)
-                defs.append((cname, "class"))
-            else:
-                src += f"{nm} = {rng.choice(['1', repr('text'), '[1, 2]', 'None', '3.5', '{1: 2}'])}\n"
-                defs.append((nm, "value"))
-        files[f"{name}/{m}.py"] = src
+        files[f"{name}/{m}.py"], defs = gen_module(rng, name, m, mods[:mi], exported)
         exported[m] = [(d, k.replace("imported-", "")) for d, k in defs if not d.startswith("mod_")]
     init = f'"""Package {name}."""\n'
     for m in mods:
@@ -199,6 +356,81 @@ def assigned_names(src: str, class_path: list[str]) -> set[str]:
     return out
 
 
+def _is_type_checking(test: ast.expr) -> bool:
+    return (isinstance(test, ast.Name) and test.id == "TYPE_CHECKING") or (
+        isinstance(test, ast.Attribute) and test.attr == "TYPE_CHECKING" and isinstance(test.value, ast.Name) and test.value.id == "typing")
+
+
+def type_guarded_names(src: str, class_path: list[str]) -> set[str]:
+    """Names bound in the body of an ``if TYPE_CHECKING:`` block of the module body / the given class body.
+
+    They exist for a static reader only (the block never runs): a difference only one agent can know, like instance
+    attributes; it is removed by this syntactic rule, never by asking griffe.
+    """
+    node: ast.AST = ast.parse(src)
+    for cname in class_path:
+        node = next(n for n in node.body if isinstance(n, ast.ClassDef) and n.name == cname)  # type: ignore[attr-defined]
+    out = set()
+    for st in node.body:  # type: ignore[attr-defined]
+        if isinstance(st, ast.If) and _is_type_checking(st.test):
+            for sub in st.body:
+                if isinstance(sub, ast.Import):
+                    out.update((a.asname or a.name.split(".")[0]) for a in sub.names)
+                elif isinstance(sub, ast.ImportFrom):
+                    out.update((a.asname or a.name) for a in sub.names)
+                elif isinstance(sub, (ast.FunctionDef, ast.AsyncFunctionDef, ast.ClassDef)):
+                    out.add(sub.name)
+                elif isinstance(sub, ast.Assign):
+                    out.update(t.id for t in sub.targets if isinstance(t, ast.Name))
+    return out
+
+
+_MISSING = object()
+
+
+def import_path(path: str):  # noqa: ANN201
+    """The object CPython reaches through a dotted path (longest importable module prefix, then attributes)."""
+    parts = path.split(".")
+    for i in range(len(parts), 0, -1):
+        try:
+            obj = importlib.import_module(".".join(parts[:i]))
+        except ImportError:
+            continue
+        try:
+            for p in parts[i:]:
+                obj = getattr(obj, p)
+        except AttributeError:
+            return _MISSING
+        return obj
+    return _MISSING
+
+
+def compare_external(rec, where: str, sm, dm):  # noqa: ANN001, ANN201
+    """Imports from outside the generated package (never loaded by griffe here): CPython arbitrates.
+
+    Both agents alias -> the two target paths must reach the *same object* (``os.path.join`` and ``posixpath.join`` do).
+    Only the static agent aliases -> allowed for plain values (their origin is agent-specific), not for classes,
+    functions and modules.
+    """
+    rec.count("external_imports_compared")
+    if sm.is_alias and dm.is_alias:
+        so, do = import_path(sm.target_path), import_path(dm.target_path)
+        if so is _MISSING or do is _MISSING or so is not do:
+            return (f"{where}: aliases of an external import reach different objects", dm.target_path, sm.target_path, None, [])
+        return None
+    if not sm.is_alias:
+        return (f"{where}: only the dynamic agent sees an import from outside the package", dm.target_path, sm.kind.value, None, [])
+    so = import_path(sm.target_path)
+    if so is _MISSING:
+        return (f"{where}: static alias target does not exist for CPython", None, sm.target_path, None, [])
+    if inspect.isclass(so) or inspect.isroutine(so) or inspect.ismodule(so):
+        return (f"{where}: imported external {type(so).__name__} is an alias for the static agent only", dm.kind.value,
+                sm.target_path, None, [])
+    if not dm.is_attribute:
+        return (f"{where}: imported plain value is a {dm.kind.value} for the dynamic agent", dm.kind.value, "attribute", None, [])
+    return None
+
+
 def classify(what: str, sobj, dobj, extra: dict) -> tuple[str | None, list[str]]:  # noqa: ANN001
     tried = ["C17-inspector-variadic-required", "C17-inspector-classmethod-drops-cls"]
     if extra.get("mech") == "variadic-required":
@@ -206,6 +438,36 @@ def classify(what: str, sobj, dobj, extra: dict) -> tuple[str | None, list[str]]
     if extra.get("mech") == "classmethod-cls":
         return "C17-inspector-classmethod-drops-cls", tried
     return None, tried
+
+
+def observe_annotations(rec, pyobj) -> None:  # noqa: ANN001
+    """Evidence of the input classes reached, judged by CPython on the really imported function."""
+    try:
+        func = inspect.unwrap(pyobj)
+    except ValueError:
+        func = pyobj
+    if func is not pyobj:
+        rec.count("functions_compared_wrapped")
+    if getattr(func, "__isabstractmethod__", False) or getattr(func, "__final__", False):
+        rec.count("functions_compared_marked_by_decorator")
+    if getattr(func, "__type_params__", ()):
+        rec.count("functions_compared_generic")
+    anns = getattr(func, "__annotations__", None) or {}
+    if not anns:
+        return
+    rec.count("functions_compared_annotated")
+    if "return" in anns:
+        rec.count("functions_compared_return_annotation")
+    if not any(isinstance(a, str) for a in anns.values()):
+        return
+    rec.count("functions_compared_str_annotation")
+    try:
+        inspect.signature(pyobj, eval_str=True)
+    except Exception as exc:  # noqa: BLE001
+        # a string annotation CPython cannot evaluate in the function's globals: forward reference to a nested class,
+        # a name imported for type checkers only, a type parameter, an undefined name, text that is no expression
+        rec.count("functions_compared_str_annotation_unevaluable")
+        rec.add_to_set("unevaluable_annotation_errors", type(exc).__name__)
 
 
 def compare_params(rec, sfunc, dfunc, pyobj, label: str):  # noqa: ANN001, ANN201, C901, PLR0911
@@ -217,6 +479,7 @@ def compare_params(rec, sfunc, dfunc, pyobj, label: str):  # noqa: ANN001, ANN20
     rec.count("functions_compared")
     cp = None
     if pyobj is not None:
+        observe_annotations(rec, pyobj)
         try:
             sig = inspect.signature(pyobj)
             cp = [(p.name, KIND_TXT[c02.INSPECT_KIND[p.kind]], p.default is p.empty and p.kind not in (p.VAR_POSITIONAL, p.VAR_KEYWORD))
@@ -267,6 +530,11 @@ def walk_compare(rec, files: dict, pkgname: str, sroot, droot):  # noqa: ANN001,
         for n, m in list(snames.items()):
             if not m.is_alias and m.is_attribute and n not in bound and "instance-attribute" in m.labels and n not in dnames:
                 del snames[n]
+        # allowed: names bound under `if TYPE_CHECKING:` only (static only)
+        for n in (type_guarded_names(src, cpath) if src else set()) - bound:
+            if n in snames and n not in dnames:
+                del snames[n]
+                rec.count("type_guarded_names_excluded")
         # sub-modules: the inspector leaves on-disk sub-modules to the loader; compare through the loader's tree
         if set(snames) != set(dnames):
             return (f"member names of {s.path} differ", {"static_only": sorted(set(snames) - set(dnames)),
@@ -274,6 +542,11 @@ def walk_compare(rec, files: dict, pkgname: str, sroot, droot):  # noqa: ANN001,
         for n in sorted(snames):
             sm, dm = snames[n], dnames[n]
             rec.count("members_compared")
+            if any(m.is_alias and m.target_path.split(".")[0] != pkgname for m in (sm, dm)):
+                res = compare_external(rec, f"{s.path}.{n}", sm, dm)
+                if res:
+                    return res
+                continue
             try:
                 sfin = sm.final_target if sm.is_alias else sm
                 dfin = dm.final_target if dm.is_alias else dm
@@ -310,6 +583,11 @@ def walk_compare(rec, files: dict, pkgname: str, sroot, droot):  # noqa: ANN001,
                 sprop, dprop = "property" in sfin.labels, "property" in dfin.labels
                 if sprop != dprop:
                     return (f"{s.path}.{n}: property-ness differs", dprop, sprop, None, [])
+                pyattr = resolve_py(pkgname, sfin.path) if sprop else None
+                if isinstance(pyattr, property):
+                    rec.count("properties_compared")
+                elif isinstance(pyattr, functools.cached_property):
+                    rec.count("cached_properties_compared")
             elif sfin.is_class:
                 rec.count("classes_compared")
                 # a base may be named through a re-export (one-hop alias path): compare the classes the names reach
